@@ -39,9 +39,16 @@ def plan(tier, seed):
     else:
         shards = plan_graph_shards("A", n_max=5, chunk=16)
         shards += plan_graph_shards("B", n_max=6, n_min=6, k=2, parts=16)
+    if tier == "quick":
+        # one six-module tree with listed modules on different nesting levels: a deep module (r.a.a, with a sub
+        # module) whose name sorts before two shallow ones (r.b, r.c); <= 1 import
+        deep = [dict(s, edges_light=True) for s in plan_graph_shards("B", k=1, parts=4, tree_list=[((((),),), (), ())])]
+        shards += deep
     out = []
     for s in shards:
         for naming in ("identity", "adversarial", "hyphen"):
+            if s.get("edges_light") and naming != "identity":
+                continue
             if tier == "quick" and s.get("edges") == 2 and naming != "identity":
                 continue  # quick: two-edge architectures on five modules under one naming only
             if naming == "hyphen" and s["space"] != "A":
@@ -196,7 +203,7 @@ def run_shard(shard, tier, seed):
         ns, I = _renamed(ns, I, shard["naming"])
         ev = build(ns, I, seed)
         res.states += 1
-        light = tier == "quick" and shard.get("edges") == 2  # quick, deepest edge bound: two definition styles, no decoys
+        light = tier == "quick" and (shard.get("edges") == 2 or shard.get("edges_light"))  # quick, deepest bounds: two definition styles, no decoys
         for layers, specs in _layerings(ns):
             for style in (("names", "regex") if light else STYLES):
                 # one LayeredArchitecture object per definition, shared by all rules (as in a test module)
